@@ -73,7 +73,7 @@ type Case struct {
 
 func setup() {
 	c := ev.C()
-	c.Rule = "scripts (negotiate, elect, batches of generated operations; Gets over the resulting contents) x every cut point (after each message sent, after each response read, at the K-th response of a batch) x termination mode {half-close, context cancel, transport error on the server's Recv, transport error on the server's Send, client stops reading then cancels}; Get abandoned after each received response 0..n (half of them as the first read after state-neutral writes to every table); sequences of 1-3 such faults; plus the same scripts against the server behind a real grpc.Server over bufconn (CloseSend, context cancellation, connection teardown, client that never reads then cancels, abandoned Get stream, and a flood that stalls the server's writer in HTTP/2 flow control before the client goes away). For every generated script all single-fault (cut, mode) pairs are enumerated, plus rapid-drawn multi-fault sequences. Oracle after every fault, once the RPC has ended and its goroutines are parked (goroutine-state quiescence): entries read through a fresh Get equal the belief-model state after SOME prefix of the sent operations that includes every acknowledged one; the highest learnt election id equals the maximum announced in the delivered messages; then a probe session (negotiate, win the election, one ADD, Get, Flush of one instance) must complete under the watchdog; a hang is classified from the goroutine dump. Non-trivial = a cut at the K-th response inside a batch, or inside a Get stream with entries remaining; distinct by FNV-64 of the case JSON."
+	c.Rule = "scripts (negotiate, elect, batches of generated operations; Gets over the resulting contents) x every cut point (after each message sent, after each response read, at the K-th response of a batch) x termination mode {half-close, context cancel, transport error on the server's Recv, transport error on the server's Send, client stops reading then cancels}; Get abandoned after each received response 0..n (half of them as the first read after state-neutral writes to every table); sequences of 1-3 such faults; plus the same scripts against the server behind a real grpc.Server over bufconn (CloseSend, context cancellation, connection teardown, client that never reads then cancels, abandoned Get stream, and a flood that stalls the server's writer in HTTP/2 flow control before the client goes away). For every generated script all single-fault (cut, mode) pairs are enumerated, plus rapid-drawn multi-fault sequences. Oracle after every fault, once the RPC has ended and its goroutines are parked (goroutine-state quiescence): entries read through a fresh Get equal the belief-model state after SOME prefix of the sent operations that includes every acknowledged one; the highest learnt election id equals the maximum announced in the delivered messages; then a probe session (negotiate, win the election, one ADD, Get, Flush of one instance) must complete under the watchdog; a hang is classified from the goroutine dump. Non-trivial = a cut at the K-th response inside a batch, or inside a Get stream with entries remaining; distinct by FNV-64 of the case JSON. Later additions: long-lived-server scope (15-257, thorough 4097, abandoned Gets in a row); disconnect-during-a-hand-over scope (in-flight schedules of package sess with clients of idle sessions going away)."
 	c.Assumptions = []string{"servers run with forward references disallowed so that the belief model is deterministic for unanswered operations", "transport failures are emulated at the stream interface (exact cut points); the real-transport class uses grpc over an in-memory bufconn listener (no kernel TCP)"}
 }
 
